@@ -15,6 +15,8 @@ def main():
     if status == "fixed":
         e["commit"] = commit
         e["record"] = "fixed: property=%s %s %s" % (pid, commit, what)
+    if any(x["property"] == pid and x["key"] == key for x in d["findings"]) and "--replace" not in sys.argv:
+        sys.exit("an entry %s %s exists: use a 'key#n' name for another fix in the same bucket, or pass --replace" % (pid, key))
     d["findings"] = [x for x in d["findings"] if not (x["property"] == pid and x["key"] == key)] + [e]
     d["findings"].sort(key=lambda x: (x["property"], x["key"]))
     json.dump(d, open(P, "w"), indent=1, sort_keys=True); open(P, "a").write("\n")
